@@ -214,8 +214,21 @@ def check(chk, only_prefixes=None):
             else:
                 missing = [x for x in want if x not in eff]
                 added = [x for x in eff if x not in want]
-                chk.violation("G-EFFECT", fnname, "%s:%s" % (rel(fn["file"]), fn["line"]),
-                              "layout recurrence of %s changed: missing %s, unexpected %s" % (fnname, missing, added))
+                known = set()
+                for v in wants:
+                    for a, b, c, d in v:
+                        known |= idents(a) | idents(c) | idents(" ".join(d))
+                known |= set(p["name"] for p in fn.get("params") or [])
+                unknown = set()
+                for a, b, c, d in added:
+                    unknown |= idents(a) | idents(c) | idents(" ".join(d))
+                unknown -= known | {"this", "operator", "bool"}
+                text = "state updates of %s changed: missing %s, unexpected %s" % (fnname, missing, added)
+                if unknown:
+                    # renamed members / new vocabulary: the table row has to be re-confirmed, nothing is decided
+                    chk.broke("G-EFFECT: %s uses identifiers the confirmed row does not know %s: %s" % (fnname, sorted(unknown)[:6], text))
+                else:
+                    chk.violation("G-EFFECT", fnname, "%s:%s" % (rel(fn["file"]), fn["line"]), text)
 
 
 def regen():
@@ -246,3 +259,45 @@ def regen():
 if __name__ == "__main__":
     if "--regen" in sys.argv:
         regen()
+
+
+
+def check_memo_caches(chk):
+    """G-CACHE: a validator that skips its checks when `S.count(key)` says the key was seen before relies on S holding
+    exactly the keys *it* has validated.  For every such memo guard (name-independent, found by shape): the container
+    tested is the one filled inside the guarded block, and no other function fills it."""
+    f = gen.facts()
+    memo = {}        # container text -> [(function, inserts-under-own-guard)]
+    fills = {}       # container text -> set(functions that add to it)
+    where_of = {}
+    for fn in gen.sbeppc_functions(f):
+        sf = short_fn(fn)
+        if not sf.startswith(EFFECT_CLASSES) or fn.get("lambda"):
+            continue
+        where_of[sf] = "%s:%s" % (rel(fn["file"]), fn["line"])
+        for (obj, op, args, guard) in effects_of(fn):
+            if op not in (".insert", ".emplace", ".try_emplace"):
+                continue
+            fills.setdefault(obj, set()).add(sf)
+            for g in guard:
+                m = re.match(r"^!\s*(.+?)\.(count|contains)\(", g) or re.match(r"^(.+?)\.find\(.*\)\s*==\s*.*end\(\)", g)
+                if m:
+                    memo.setdefault(sf, []).append((m.group(1).strip(), obj))
+    n = 0
+    for sf, pairs in sorted(memo.items()):
+        for tested, filled in sorted(set(pairs)):
+            n += 1
+            key = "memo:%s" % sf
+            others = sorted(fills.get(tested, set()) - {sf})
+            if tested != filled:
+                chk.violation("G-CACHE", key, where_of[sf],
+                              "%s skips its checks when `%s` has the key but records what it validated in `%s`: the two "
+                              "caches get out of step and a header of one kind is taken as validated for the other" % (sf, tested, filled))
+            elif others:
+                chk.violation("G-CACHE", key, where_of[sf],
+                              "%s skips its checks for keys found in `%s`, which %s fill(s) too after running *different* checks: "
+                              "an entity validated in one role is accepted unchecked in the other (the generators then "
+                              "dereference what the skipped checks guarantee)" % (sf, tested, others))
+            else:
+                chk.ok("G-CACHE", key, {"cache": tested, "only_filled_by": sf})
+    chk.floor("memo guards", n, 2)
